@@ -4,3 +4,4 @@ import ReplayProofs.Lemmas.Codec
 import ReplayProofs.C03
 import ReplayProofs.C17
 import ReplayProofs.C16
+import ReplayProofs.C04
